@@ -78,27 +78,27 @@ func TestC10(t *testing.T) {
 		f  func()
 	}
 	var jobs []job
-	for i := 0; i < run.N(300, 20000); i++ {
+	for i := 0; i < run.N(300, 8000); i++ {
 		i := i
 		jobs = append(jobs, job{fmt.Sprintf("a%d", i), func() { partA(t, run, base, i) }})
 	}
-	for i := 0; i < run.N(360, 25000); i++ {
+	for i := 0; i < run.N(360, 9500); i++ {
 		i := i
 		jobs = append(jobs, job{fmt.Sprintf("b%d", i), func() { partB(t, run, base, i) }})
 	}
-	for i := 0; i < run.N(12, 180); i++ {
+	for i := 0; i < run.N(12, 72); i++ {
 		i := i
 		jobs = append(jobs, job{fmt.Sprintf("c%d", i), func() { partC(t, run, base, i) }})
 	}
-	for i := 0; i < run.N(240, 12000); i++ {
+	for i := 0; i < run.N(240, 4500); i++ {
 		i := i
 		jobs = append(jobs, job{fmt.Sprintf("r%d", i), func() { partR(t, run, base, i) }})
 	}
-	for i := 0; i < run.N(88, 6000); i++ {
+	for i := 0; i < run.N(88, 2300); i++ {
 		i := i
 		jobs = append(jobs, job{fmt.Sprintf("k%d", i), func() { partKDirected(t, run, base, i) }})
 	}
-	for i := 0; i < run.N(10, 500); i++ {
+	for i := 0; i < run.N(10, 190); i++ {
 		i := i
 		jobs = append(jobs, job{fmt.Sprintf("kf%d", i), func() { partKFree(t, run, base, i) }})
 	}
